@@ -386,7 +386,13 @@ def run_case(case):
     res = dict(events=ev, steps=s.steps, switches=s.switches, monitors=[], rest=0, deadlock=None)
     mon = res['monitors']
     if st['badtime'] is not None:
-        res['infra_error'] = f'non-integral virtual time at event {st["badtime"]}'
+        # All virtual times the scenario generates are integral multiples of the unit, and the only
+        # durations the code under test may add are the configured batch_wait_time values (integral
+        # too).  An event off the grid means the code waited for a time it was not told to wait.
+        mon.append(dict(prop='C09', rule='off-grid-time',
+                        detail=f'event {st["badtime"]} happened at a virtual time that no configured wait can produce '
+                               f'(batch_size={case.get("b")}, batch_wait_time={case.get("wait")})'))
+        res['skip_model'] = True
         return res
     if e is not None:
         if isinstance(e, detsched.Deadlock) or s.deadlock_info is not None:
@@ -653,6 +659,8 @@ def run_server_case(case):
 
 def model_lines(cid, case, res):
     """event trace -> lines for `drv batch` (one model action per line; see Drv/Batch.lean)"""
+    if res.get('skip_model'):
+        return []
     b = case['b']
     lines = [f'case {cid} k={case["k"]} b={b} wait={case["wait"]} pool={int(case["nst"] > 0)}']
     in_batch = {}
